@@ -26,10 +26,12 @@ from _ast import FloorDiv
 from _ast import Gt
 from _ast import GtE
 from _ast import If
+from _ast import IfExp
 from _ast import In
 from _ast import Invert
 from _ast import Is
 from _ast import IsNot
+from _ast import Lambda
 from _ast import LShift
 from _ast import Lt
 from _ast import LtE
@@ -501,8 +503,18 @@ class SourceGenerator(NodeVisitor):
 
     # Expressions
 
+    def visit_operand(self, node):
+        """visit a sub-expression where a conditional expression or a
+        lambda binds too weakly to be written without parentheses"""
+        if isinstance(node, (IfExp, Lambda)):
+            self.write("(")
+            self.visit(node)
+            self.write(")")
+        else:
+            self.visit(node)
+
     def visit_Attribute(self, node):
-        self.visit(node.value)
+        self.visit_operand(node.value)
         self.write("." + node.attr)
 
     def visit_Call(self, node):
@@ -514,7 +526,7 @@ class SourceGenerator(NodeVisitor):
             else:
                 want_comma.append(True)
 
-        self.visit(node.func)
+        self.visit_operand(node.func)
         self.write("(")
         for arg in node.args:
             write_comma()
@@ -576,7 +588,7 @@ class SourceGenerator(NodeVisitor):
                 self.write(", ")
             if key is None:
                 self.write("**")
-                self.visit(value)
+                self.visit_operand(value)
             else:
                 self.visit(key)
                 self.write(": ")
@@ -585,9 +597,9 @@ class SourceGenerator(NodeVisitor):
 
     def visit_BinOp(self, node):
         self.write("(")
-        self.visit(node.left)
+        self.visit_operand(node.left)
         self.write(" %s " % BINOP_SYMBOLS[type(node.op)])
-        self.visit(node.right)
+        self.visit_operand(node.right)
         self.write(")")
 
     def visit_BoolOp(self, node):
@@ -595,15 +607,15 @@ class SourceGenerator(NodeVisitor):
         for idx, value in enumerate(node.values):
             if idx:
                 self.write(" %s " % BOOLOP_SYMBOLS[type(node.op)])
-            self.visit(value)
+            self.visit_operand(value)
         self.write(")")
 
     def visit_Compare(self, node):
         self.write("(")
-        self.visit(node.left)
+        self.visit_operand(node.left)
         for op, right in zip(node.ops, node.comparators):
             self.write(" %s " % CMPOP_SYMBOLS[type(op)])
-            self.visit(right)
+            self.visit_operand(right)
         self.write(")")
 
     def visit_UnaryOp(self, node):
@@ -612,11 +624,11 @@ class SourceGenerator(NodeVisitor):
         self.write(op)
         if op == "not":
             self.write(" ")
-        self.visit(node.operand)
+        self.visit_operand(node.operand)
         self.write(")")
 
     def visit_Subscript(self, node):
-        self.visit(node.value)
+        self.visit_operand(node.value)
         self.write("[")
         self.visit(node.slice)
         self.write("]")
@@ -673,15 +685,15 @@ class SourceGenerator(NodeVisitor):
         self.write("}")
 
     def visit_IfExp(self, node):
-        self.visit(node.body)
+        self.visit_operand(node.body)
         self.write(" if ")
-        self.visit(node.test)
+        self.visit_operand(node.test)
         self.write(" else ")
         self.visit(node.orelse)
 
     def visit_Starred(self, node):
         self.write("*")
-        self.visit(node.value)
+        self.visit_operand(node.value)
 
     def visit_Repr(self, node):
         # XXX: python 2.6 only
@@ -700,11 +712,11 @@ class SourceGenerator(NodeVisitor):
         self.write(" for ")
         self.visit(node.target)
         self.write(" in ")
-        self.visit(node.iter)
+        self.visit_operand(node.iter)
         if node.ifs:
             for if_ in node.ifs:
                 self.write(" if ")
-                self.visit(if_)
+                self.visit_operand(if_)
 
     def visit_excepthandler(self, node):
         self.newline()
